@@ -9,6 +9,16 @@ CLAIMED = {
 		text='Every obligation (pre@call, post, loop invariant init/preservation, variant, exception-freedom) generated from the current source of the block-splitting helpers is discharged for all inputs; the quote-domination part of the no-cut-inside-quotes law is a labelled bounded stand-in.',
 		note='pyvc encoding of the Python subset; z3/cvc5 soundness; spec functions in specs/brackets.py are the oracle; bounded parts listed in evidence.bounded_checks',
 		ref='DESIGN.md §4 C18'),
+	'C15': dict(
+		level='exploration',
+		text='Bounded stand-in only: the contract V(EntryOfLark(loads(json(dumps(T))))) == V(EntryOfLark(T)) is evaluated at run time on every lark tree up to 4 (5) nodes over an alphabet that contains the corner cases (multi-line tokens, unset/zero positions, empty meta, None placeholders, childless trees) and on real parse trees. Nothing is counted as proved: the two recursive functions work on third-party lark objects and heterogeneous dicts that the VC subset cannot carry without replacing most statements by assumed readings.',
+		note='bounded (exhaustive to the stated size); lark object semantics and the JSON round trip trusted',
+		ref='DESIGN.md §4 C15'),
+	'C16': dict(
+		level='proof',
+		text='Token.SourceMap.make is proved to record, for every source and 0 <= begin <= end <= len, exactly the standard (line, column) of both offsets (counting/rfind lemmas by induction); Quotation.__cause_range and __build_line_mark are proved to mark columns [begin, end) of the reported line. Spans produced by the parser are assumed; survival through the cache encoding is a bounded stand-in shared with C15.',
+		note='lark propagate_positions assumed; file I/O of the quotation not covered; cache clause bounded',
+		ref='DESIGN.md §4 C16'),
 	'C17': dict(
 		level='proof',
 		text='Every handler of the literal evaluator is verified against a CPython-semantics spec of the operator set (type promotion, int/int true division, refusal): a normal return implies CPython evaluates the same operands without raising, to the same value and type. Floats and bitwise operators are uninterpreted (dispatch contracts); string denotations and literal parsing are a labelled bounded twin against ast.literal_eval / eval.',
@@ -24,7 +34,7 @@ NOT_APPLICABLE = {
 	'C02': 'equality of two parsers over all texts (lark LALR engine interpreting grammar data vs CPython): no function contract of tranp carries it; only differential testing could, which is a different family (DESIGN.md §5)',
 	'C03': 'type soundness of the inference engine against CPython run-time types needs formal semantics of both languages and the stub library; not expressible as a contract over one call or data structure (DESIGN.md §5)',
 }
-PENDING = {p: 'designed in DESIGN.md §4, contracts not built yet in this round' for p in ['C01','C04','C05','C06','C07','C08','C09','C10','C11','C12','C13','C14','C15','C16']}
+PENDING = {p: 'designed in DESIGN.md §4, contracts not built yet in this round' for p in ['C01','C04','C05','C06','C07','C08','C09','C10','C11','C12','C13','C14']}
 
 def main():
 	checks = []
